@@ -2,16 +2,16 @@ INIT Init
 NEXT Next
 CONSTANTS
   SpeciesSeq <- Species5
-  Catalog <- Cat12
+  Catalog <- Cat6
   Comp <- NoComp
   UseComp = FALSE
-  MaxRx = 2
+  MaxRx = 1
   AllowDup = FALSE
   Modes <- Modes_One
-  MaxSys = 1
+  MaxSys = 3
   MaxOps = 0
-  Preds <- Preds_All
-  QueryKinds <- Q_Subset
+  Preds <- Preds_None
+  QueryKinds <- Q_Cat3
   ConcGrid <- G_None
   YieldK <- K_None
   TerminalQueries = TRUE
